@@ -32,7 +32,7 @@ def selftest():
 @st.composite
 def case_strategy(draw):
     c = draw(cases.spacetime_case(
-        kinds=("Wp", "Wp", "Wp", "Wn", "KS", "PP", "F", "FLp"),
+        kinds=("Wp", "Wp", "Wp", "Wn", "KS", "PP", "F", "FLp", "Wt0"),
         orders_p=(2, 4, 4, 6), orders_n=(2, 4), np_range=(10, 12)))
     fam = c["spec"]["family"]
     c["form"] = draw(st.sampled_from(["components", "tensors"]))
@@ -190,6 +190,8 @@ def generic_cases():
                     matter="none", vacuum=True, kw=KW))
     out.append(dict(cases.generic_PP(2), Lambda=0.0, form="tensors",
                     matter="none", vacuum=False, kw=KW))
+    out.append(dict(cases.generic_Wt0(4), Lambda=0.0, form="components",
+                    matter="Tdown4", vacuum=False, kw=KW))
     return out
 
 
